@@ -47,6 +47,12 @@ CALLS = {
     "zero-reg": ("parse", "let n 1\nregister q[0]\n"),
     # indexing something that is not a register
     "index-let": ("parse", "let a 1\n" + HDR + "g a[0]\n"),
+    # errors raised inside grammar actions, whose position is whatever the parser recorded last: the unimplemented
+    # import statement (first thing in the text / after a header statement further down) and a header statement
+    # after the body
+    "import-first": ("parse", "import a as b\n"),
+    "import-later": ("parse", "\n" + HDR + "  let n 1\n import a as b\n"),
+    "hdr-after-body": ("parse", HDR + "g q[0]\n\n  let n 1\n"),
     # pulse definitions: relative / absolute, existing / missing (autoload on, fixture import path)
     "use-rel": ("auto", "from .vpulses usepulses *\n" + USE_BODY),
     "use-abs": ("auto", "from vpulses usepulses *\n" + USE_BODY),
@@ -77,13 +83,13 @@ CALLS = {
 
 # the alphabet of the explored state graph (order = simplest first)
 ALPHABET = (
-    "ok", "syn-mid", "syn-eof", "illegal", "semantic", "index-let",
+    "ok", "syn-mid", "syn-eof", "illegal", "semantic", "index-let", "import-first", "hdr-after-body",
     "use-rel", "use-abs", "use-rel-missing", "use-abs-missing", "use-dot",
     "use-abs-x", "inj-abs", "inj-rel", "inj-abs-bad",
     "header", "emulate", "sexpr",
 )
 # calls added in the thorough tier
-EXTRA = ("redefine", "zero-reg", "use-abs-nogate", "use-rel-x", "emulate-bad", "run-string", "sexpr-bad")
+EXTRA = ("import-later", "redefine", "zero-reg", "use-abs-nogate", "use-rel-x", "emulate-bad", "run-string", "sexpr-bad")
 
 FUEL = 400000
 
